@@ -392,7 +392,8 @@ Recv(r) ==
                 e2 == [e1 EXCEPT !.state = r.state, !.stim = TRUE, !.rxCount = @ + 1, !.lastRxAt = now,
                                  !.lastGainAt = IF e1.acked # e.acked \/ r.state # e.state \/ e1.fin # e.fin \/ e.rxCount = 0
                                                    \/ DOMAIN e1.segs # DOMAIN e.segs THEN now ELSE @,
-                                 !.peerLied = @ \/ (r.t \in {ST_DATA, ST_STATE, ST_FIN} /\ D(r.ack, e.nxt) > 0),
+                                 !.peerLied = @ \/ (r.t \in {ST_DATA, ST_STATE, ST_FIN} /\ D(r.ack, Nx(e.nxt, SeqMod - 1)) > 0
+                                                     /\ ~(e.fin.seq >= 0 /\ r.ack = e.fin.seq)),
                                  !.lastDataRxAt = IF r.t \in {ST_DATA, ST_FIN} THEN now ELSE @,
                                  !.maxArr = IF r.t = ST_DATA /\ ActsOn(e, r) THEN Max(@, r.plen) ELSE @,
                                  !.drainDue = IF drain THEN l ELSE @,
